@@ -7,13 +7,40 @@ RULE = ("TLC enumerates type shapes of spec/JsonTypes.tla (25 leaf kinds incl. N
         "carrying structs as constructors; depth 2 over all kinds, deeper over a seeded subset) and the embedding scenarios of "
         "spec/JsonFields.tla with the predicted visible fields; each shape is materialised with reflect and a bounded list of boundary "
         "values is encoded by value and by pointer through Marshal, Append, Encoder x {EscapeHTML} x {indent/prefix}, MarshalIndent and "
-        "Escape/AppendEscape and compared byte for byte with encoding/json. distinct_nontrivial = distinct shapes / scenarios")
+        "Escape/AppendEscape and compared byte for byte with encoding/json; plus spec/JsonString.tla: the escape algorithm (word scan, tail, span "
+        "copies) refines the definition of a string literal for all unit sequences (17 unit classes: plain, quote, backslash, short and other "
+        "controls, html, 2/3/4-byte runes, U+FFFD, U+2028/9, invalid bytes and truncated / surrogate sequences), and every sequence of up to "
+        "3 (thorough 4) units x EscapeHTML, rendered with several concrete bytes per unit and padded so that each unit visits every offset of "
+        "the scanner's 8-byte words, must be written as the predicted literal by Marshal, Append, AppendEscape, Escape, Encoder and MarshalIndent, "
+        "as a value, element, field value, map key and map value. distinct_nontrivial = distinct shapes / scenarios / unit sequences")
 ASSUME = ["encoding/json is the oracle of record (the property is defined as agreement with it); it must agree with JsonFields.Visible",
           "time.Duration (the sanctioned difference) is not generated"]
 
 
+def extra(ck, vec):
+    # string literals: the escape algorithm against its definition, then every unit sequence with the literal the definition gives
+    import vlib
+    thorough = ck.tier == "thorough"
+    mc = vlib.must_hold(vlib.tlc("JsonString", "MC_JsonString.cfg", workers=8, defines={"MaxUnits": 5 if thorough else 4,
+                                                                                      "EscUnits": STR_SUB if thorough else "{}"}),
+                        "JsonString: escape algorithm refines the definition")
+    ck.add_mc(mc, "MC_JsonString")
+    w = vlib.tlc("JsonString", "MC_JsonStringBroken.cfg", workers=4, expect_violation=True)
+    if w.ok:
+        raise vlib.Infra("JsonString with a tail scan that starts one byte late should violate its invariants: the model is vacuous")
+    ck.add_mc(w, "MC_JsonStringBroken(vacuity witness)")
+    with open(vec, "a") as sink:
+        g = vlib.must_hold(vlib.tlc("JsonString", "Gen_JsonString.cfg", workers=8, sink=sink, defines={"MaxUnits": 4 if thorough else 3},
+                                    timeout=3000), "string literals (escape)")
+    ck.add_mc(g, "Gen_JsonString")
+    ck.notes["string_unit_sequences"] = g.vectors
+
+
+STR_SUB = '{"a", "q", "sc", "c", "h", "r2", "r4", "ls", "x", "tr"}'
+
+
 def run(tier, seed):
-    return jsoncommon.run(PROP, tier, seed, RULE, ASSUME)
+    return jsoncommon.run(PROP, tier, seed, RULE, ASSUME, extra_vec=extra)
 
 
 def replay(path, seed):
